@@ -571,6 +571,52 @@ def incremental(ctx: Ctx):
         ok = ok and zeroed
         why = f"scatter_add_(-1, updated current_depot: {idx is newdepot}, step length reads {sorted(vg.cells_of(val))}, depot->depot legs zeroed: {zeroed})"
     ctx.ob("C03.d", "MDCPDPEnv._step:current_length", ok, sl.where, why, construct="MDCPDPEnv._step:current_length")
+    # which legs are free of charge: depot -> depot always (opening a new route); node -> depot only in the 'open' problem mode
+    if cl.op == "meth" and cl.args[1] in ("scatter_add_", "scatter_add") and len(cl.args) >= 5:
+        val = cl.args[4]
+        D = None
+
+        def zero_conds(v):
+            """conditions under which the step length is replaced by 0, outermost first"""
+            out = []
+            v = nf.strip(v)
+            while nf._fn(v) == "torch.where" and len(v.args) == 4 and vg.is_const(v.args[2], 0):
+                out.append(v.args[1])
+                v = nf.strip(v.args[3])
+            return out, v
+
+        def sig(cond):
+            """{(cell, relation to the number of depots)} of a conjunction of comparisons with num_depot"""
+            out = set()
+            parts = list(nf.strip(cond, True).args) if nf.strip(cond, True).op in ("&", "and") else [cond]
+            for p_ in parts:
+                r_ = nf._cmp_raw(nf.strip(p_, True))
+                if r_ is None:
+                    return None
+                lhs, op, rhs = r_
+                cells = vg.cells_of(lhs)
+                if len(cells) != 1 or not (nf.dim_of(nf.strip(rhs)) is not None and "capacity" in vg.cells_of(rhs, shapes=True)):
+                    return None
+                out.add((next(iter(cells)), op))
+            return out
+        alts = {}
+        if val.op in ("phi", "ifexp") and val.args[0].op == "==" and any(vg.is_const(x, "open") for x in val.args[0].args):
+            alts = {"open": val.args[1], "close": val.args[2]}
+        else:
+            alts = {"close": val}
+        okz, whyz = True, []
+        want_dd = {("action", "<"), ("current_node", "<")}
+        want_nd = {("action", "<"), ("current_node", ">=")}
+        for mode, v in alts.items():
+            conds, rest = zero_conds(v)
+            sigs = [sig(c) for c in conds]
+            need = [want_dd] + ([want_nd] if mode == "open" else [])
+            good = None not in sigs and sorted(map(sorted, sigs)) == sorted(map(sorted, need))
+            okz = okz and good
+            whyz.append(f"{mode}: zero-length legs {[sorted(x) if x else x for x in sigs]}" + ("" if good else f" (expected {[sorted(x) for x in need]})"))
+        okz = okz and "open" in alts
+        ctx.ob("C03.d", "MDCPDPEnv._step:free-legs", okz, sl.where, "depot -> depot legs cost nothing; node -> depot legs cost nothing only in 'open' mode: " + "; ".join(whyz),
+               construct="MDCPDPEnv._step:free-legs")
     # ---- FFSP final reward
     env = EnvA(ctx.repo, T.ALL_ENVS["FFSPEnv"], "FFSPEnv")
     sl = env.slot("_step")
